@@ -314,7 +314,13 @@ func panicsToViolations(e *Env, prop string) {
 		fn := "?"
 		first := strings.SplitN(p, "\n", 2)[0]
 		lines := strings.Split(p, "\n")
+		harnessFirst := false
 		for _, ln := range lines {
+			if fn == "?" && (strings.HasPrefix(ln, "harness.") || strings.Contains(ln, "/verif/harness/")) {
+				// a frame of the harness lies between the panic and the code under test: the harness panicked
+				harnessFirst = true
+				break
+			}
 			if strings.Contains(ln, "github.com/flant/shell-operator/pkg/") && !strings.Contains(ln, "zz_verif") {
 				fn = strings.TrimSpace(ln)
 				if i := strings.Index(fn, "(0x"); i > 0 {
@@ -326,11 +332,15 @@ func panicsToViolations(e *Env, prop string) {
 				break
 			}
 		}
-		if fn == "?" && (strings.Contains(p, "harness.") || strings.Contains(p, "harness_test")) {
+		if harnessFirst || (fn == "?" && (strings.Contains(p, "harness.") || strings.Contains(p, "harness_test"))) {
 			e.Out.Infra = "harness panic: " + p
 			continue
 		}
-		e.Viol(prop, "PANIC", fn, "%s", first)
+		stack := p
+		if len(stack) > 1800 {
+			stack = stack[:1800]
+		}
+		e.Viol(prop, "PANIC", fn, "%s | %s", first, strings.ReplaceAll(stack, "\n", " / "))
 	}
 }
 
